@@ -10,14 +10,32 @@ DISCHARGED, VIOLATION, UNDECIDED = "DISCHARGED", "VIOLATION", "UNDECIDED"
 
 
 def load_known():
-    path = os.path.join(VERIF, "known_findings.jsonl")
+    """known_findings.txt: one entry per line,
+         known: property=<id> key=<rule>|<key> :: <what fails>
+         fixed: property=<id> <commit> <what failed>
+    `fixed` entries document repaired defects and suppress nothing."""
+    path = os.path.join(VERIF, "known_findings.txt")
     out = []
     if os.path.exists(path):
         with open(path) as fh:
             for line in fh:
                 line = line.strip()
-                if line and not line.startswith("#"):
-                    out.append(json.loads(line))
+                if not line or line.startswith("#"):
+                    continue
+                if line.startswith("known:"):
+                    body = line[len("known:"):].strip()
+                    head, _, what = body.partition(" :: ")
+                    parts = head.split(" ", 1)
+                    prop = parts[0].split("=", 1)[1]
+                    key = parts[1].strip()
+                    if key.startswith("key="):
+                        key = key[4:]
+                    out.append({"status": "known", "property": prop, "key": key, "what": what})
+                elif line.startswith("fixed:"):
+                    body = line[len("fixed:"):].strip().split(" ", 2)
+                    out.append({"status": "fixed", "property": body[0].split("=", 1)[1],
+                                "commit": body[1] if len(body) > 1 else "",
+                                "what": body[2] if len(body) > 2 else ""})
     return out
 
 
